@@ -29,8 +29,15 @@ const prop = "C18"
 
 type engine struct{}
 
+//go:norace
 func (engine) Name() string { return "promsim" }
 
+// RaceProps: the properties that demand race freedom; judged by the race-detector build of this engine.
+//
+//go:norace
+func (engine) RaceProps() []string { return []string{"C18"} }
+
+//go:norace
 func TestWorker(t *testing.T) { simdrv.Worker(t, engine{}) }
 
 // instrument names and units: a fixed list that includes the unit-word and "total" edge cases (the
@@ -89,7 +96,10 @@ type safeCollector struct {
 	w     *world
 }
 
+//go:norace
 func (s *safeCollector) Describe(ch chan<- *promclient.Desc) { s.inner.Describe(ch) }
+
+//go:norace
 func (s *safeCollector) Collect(ch chan<- promclient.Metric) {
 	defer func() {
 		if p := recover(); p != nil {
@@ -104,9 +114,12 @@ type wrapRegisterer struct {
 	w   *world
 }
 
+//go:norace
 func (r wrapRegisterer) Register(c promclient.Collector) error {
 	return r.reg.Register(&safeCollector{inner: c, w: r.w})
 }
+
+//go:norace
 func (r wrapRegisterer) MustRegister(cs ...promclient.Collector) {
 	for _, c := range cs {
 		if err := r.Register(c); err != nil {
@@ -114,6 +127,8 @@ func (r wrapRegisterer) MustRegister(cs ...promclient.Collector) {
 		}
 	}
 }
+
+//go:norace
 func (r wrapRegisterer) Unregister(c promclient.Collector) bool { return false }
 
 type world struct {
@@ -133,6 +148,7 @@ type planOp struct {
 	sleep time.Duration
 }
 
+//go:norace
 func (engine) Body(r *simdrv.Run) {
 	w := &world{r: r}
 	nRec := 1 + r.Cfg(3)
@@ -257,6 +273,7 @@ func (engine) Body(r *simdrv.Run) {
 			sdkmetric.WithResource(resource.NewSchemaless(attribute.String("service.name", "sim"), attribute.String("deployment", "test"), attribute.String("unrelated", "x"))))
 		w.wireRet = sim.Stamp()
 		mp = p
+		simrt.HarnessRelease()
 	}
 	if lateWire {
 		sim.Spawn("wirer", func() {
@@ -303,6 +320,7 @@ func (engine) Body(r *simdrv.Run) {
 				for mp == nil {
 					simrt.Sleep(time.Millisecond, simdrv.PtSleep)
 				}
+				simrt.HarnessAcquire() // the provider was published by the wirer task (race build: an ordinary hand-over, not a race)
 				in := w.insts[op.inst]
 				if in.created == 0 {
 					in.created = 1 // claimed; creation below
@@ -596,6 +614,7 @@ func (engine) Body(r *simdrv.Run) {
 	}
 }
 
+//go:norace
 func popcount(x uint64) int {
 	n := 0
 	for ; x != 0; x &= x - 1 {
